@@ -100,7 +100,7 @@ static inline int reg_range_touches(RegisterEntry *e, RegisterAddress addr, Regi
 __CPROVER_requires(RB_ENTRY_R_OK(e) && RB_TYPE_IS_ENUM(e->type))
 __CPROVER_assigns()
 __CPROVER_ensures(__CPROVER_return_value == RB_RANGE_TOUCHES32(RB_E_END32(e), e->address, addr, n))
-__CPROVER_ensures(IMPLIES(RB_E_NOWRAP(e) && RB_M64(addr) + RB_M64(n) <= 0xffffffffull,
+__CPROVER_ensures(IMPLIES(RB_E_NOWRAP(e) && n != 0 && RB_M64(addr) + RB_M64(n) <= 0xffffffffull,
     (__CPROVER_return_value == 0) == RB_E_OVERLAPS(e, addr, n)))
 ;
 
@@ -165,96 +165,32 @@ __CPROVER_ensures(IMPLIES(__CPROVER_return_value < t->entries,
 __CPROVER_ensures(IMPLIES(start <= g_j && g_j < __CPROVER_return_value, RB_PART_OF32(a, t->entry[g_j].address)))
 ;
 
-/* ---- register_set in the calling context of register_init ----------------
- * LOCAL contract (the general one, for every table state and handle, is
- * C01's in contracts/registers-typed.h; the two headers are never in one
- * unit).  It is enforced against the real register_set / register_setx /
- * rv_validate / serialisers / reg_mem_write by target c04_register_set and
- * used by replacement in register_init. */
-/* written as a function with locals: a macro that repeats t->entry[idx].area->...
- * a dozen times costs the symbolic execution minutes (CBMC 6.11 creates a
- * fresh failure object per textual dereference, quadratically) */
-static inline bool rb_set_context_ok(const RegisterTable *t, RegisterHandle idx)
-{
-  const RegisterEntry *e = &t->entry[idx];
-  if (!RB_ENTRY_R_OK(e) || !RB_TYPE_IS_VALUE(e->type) || !RB_CHECK_IS_ENUM(e->check.type))
-    return false;
-  if (e->check.type == REGV_TYPE_CALLBACK && e->check.arg.cb != st_validator)
-    return false;
-  const RegisterArea *a = e->area;
-  if (!RB_AREA_R_OK(a) || !(a->write == NULL || a->write == reg_mem_write))
-    return false;
-  if (e->offset > a->size || RB_WORDS(e->type) > a->size - e->offset)
-    return false;
-  if (a->write != NULL) {
-    const RegisterAtom *m = a->mem;
-    if (!__CPROVER_rw_ok(m, (size_t)a->size * sizeof(RegisterAtom)))
-      return false;
-    if (RB_SAME_OBJECT(m, t) || RB_SAME_OBJECT(m, t->entry) || RB_SAME_OBJECT(m, a))
-      return false;
-  }
-  return true;
-}
-
-RegisterAccess register_set(RegisterTable *t, const RegisterHandle idx, const RegisterValue v)
-__CPROVER_requires(__CPROVER_r_ok(t, sizeof(RegisterTable)) && RB_INITIALISED(t) && idx < t->entries)
-__CPROVER_requires(rb_set_context_ok(t, idx))
-__CPROVER_assigns(
-    rb_set_accepts(t, idx, v) && SPEC_REG_W1(t->entry[idx].type):
-      __CPROVER_object_upto(t->entry[idx].area->mem + t->entry[idx].offset, 1u * sizeof(RegisterAtom));
-    rb_set_accepts(t, idx, v) && SPEC_REG_W2(t->entry[idx].type):
-      __CPROVER_object_upto(t->entry[idx].area->mem + t->entry[idx].offset, 2u * sizeof(RegisterAtom));
-    rb_set_accepts(t, idx, v) && SPEC_REG_W4(t->entry[idx].type):
-      __CPROVER_object_upto(t->entry[idx].area->mem + t->entry[idx].offset, 4u * sizeof(RegisterAtom)))
-__CPROVER_ensures((__CPROVER_return_value.code == REG_ACCESS_SUCCESS) == rb_set_accepts(t, idx, v))
-__CPROVER_ensures(IMPLIES(__CPROVER_return_value.code == REG_ACCESS_SUCCESS, rb_set_stored(t, idx, v)))
-;
-
 /* ---- ghost record: expected outcomes computed by the spec functions ---- */
 struct rb_ghost {
-  /* the table description as handed to the function under proof */
-  uint32_t na, ne;                  /* positions of the list terminators */
-  const RegisterArea *area0;        /* snapshot of the area list before the call */
-  const RegisterEntry *entry0;      /* snapshot of the register list before the call */
+  uint32_t na, ne;                  /* positions of the list terminators of the description */
   /* C04 */
-  struct rb_init_expect init;       /* rb_spec_first_violation(description) */
+  struct rb_init_expect init;       /* rb_spec_first_violation(model before the call) */
 };
 extern struct rb_ghost g_rb;
 
 
 /* ---- C04: register_init ------------------------------------------------
  * Statement: succeeds exactly for the well-formed descriptions, otherwise
- * names the first violated rule and its offender (g_rb.init, computed by
- * rb_spec_first_violation) and leaves the table uninitialised; after success
- * the table is well-formed (rb_table_wf: every area records exactly its run of
- * registers), every word of a memory-backed area is the image word of the
- * default located there (areas that load defaults) or zero, and the
- * description itself is unchanged.  The clauses are spec FUNCTIONS with
- * constant-bounded loops over the table dimension (tier B); g_rb is filled by
- * the harness from the spec functions (enforce-only contract). */
-#define RB_ASSIGN_MEM(t, i) \
-    (i) < g_rb.na && (t)->area[i].mem != NULL: __CPROVER_object_upto((t)->area[i].mem, (t)->area[i].size * sizeof(RegisterAtom))
-
-RegisterInit register_init(RegisterTable *t)
-__CPROVER_requires(__CPROVER_rw_ok(t, sizeof(RegisterTable)) && t->area != NULL && t->entry != NULL)
-__CPROVER_requires(g_rb.na <= RB_NA && g_rb.ne <= RB_NE)
-__CPROVER_requires(__CPROVER_rw_ok(t->area, (g_rb.na + 1) * sizeof(RegisterArea)))
-__CPROVER_requires(__CPROVER_rw_ok(t->entry, (g_rb.ne + 1) * sizeof(RegisterEntry)))
-__CPROVER_requires(RB_AREA_IS_END(&t->area[g_rb.na]) && RB_ENTRY_IS_END(&t->entry[g_rb.ne]))
-__CPROVER_assigns(t->flags, t->areas, t->entries;
-    g_rb.na > 0: __CPROVER_object_upto(t->area, g_rb.na * sizeof(RegisterArea));
-    g_rb.ne > 0: __CPROVER_object_upto(t->entry, g_rb.ne * sizeof(RegisterEntry));
-    RB_ASSIGN_MEM(t, 0); RB_ASSIGN_MEM(t, 1); RB_ASSIGN_MEM(t, 2); RB_ASSIGN_MEM(t, 3); RB_ASSIGN_MEM(t, 4); RB_ASSIGN_MEM(t, 5))
-/* The postconditions of the statement are asserted by the harness right
- * after the call (RB_INIT_POST in harness/registers-block.c): spec functions
- * with loops over the table, evaluated inside a contract clause, cost the
- * symbolic execution minutes under dfcc.  Here: what needs no table walk. */
-__CPROVER_ensures(__CPROVER_return_value.code == g_rb.init.code)
-__CPROVER_ensures(IMPLIES(g_rb.init.code != REG_INIT_SUCCESS, !RB_INITIALISED(t)))
-__CPROVER_ensures(IMPLIES(g_rb.init.code == REG_INIT_SUCCESS,
-    RB_INITIALISED(t) && (t->flags & REG_TF_DURING_INIT) == 0 && t->areas == g_rb.na && t->entries == g_rb.ne))
-__CPROVER_ensures(RB_BE(t) == ((__CPROVER_old(t->flags) & REG_TF_BIG_ENDIAN) != 0))
-__CPROVER_ensures(t->area == __CPROVER_old(t->area) && t->entry == __CPROVER_old(t->entry))
-;
+ * names the first violated rule and its offender and leaves the table
+ * uninitialised; after success the table is well-formed (every area records
+ * exactly its run of registers), every word of a memory-backed area is the
+ * image word of the default located there (areas that load defaults) or zero,
+ * and the description itself is unchanged.
+ * register_init, register_block_read/write and register_foreach_in are NOT
+ * checked through `goto-instrument --dfcc`: measured here, the write-set
+ * instrumentation of a function that walks the whole table made the query
+ * 3-5 times larger than the un-instrumented whole stack and did not finish
+ * (2 areas x 2 registers: > 15 min).  Their postconditions, written from the
+ * statement as spec functions over the value model of the table
+ * (spec/registers-block.h), are asserted by the harness right after the real
+ * call (RB_INIT_POST etc. in harness/registers-block.c) and discharged by
+ * bounded model checking of the real code: tier B.  The frame is covered by
+ * "unchanged" clauses over every list element and every stored word plus the
+ * exact-size blocks. */
 
 #endif
